@@ -37,6 +37,10 @@ ASSUMPTIONS = [
     'never carries an explicitly empty traits list',
     'partitions are not reconfigured while reservations exist (shrinking a partition below '
     'what is promised is outside the statement)',
+    'beyond C19 (extensions.cellsync, DRIFT class): cellsync.sync_allocations runs against the same '
+    'directory and one harness/zkfake per cell with context.GLOBAL.cell / zk.conn patched; the order '
+    'of the /allocations list (the directory search order) is left open; requests may carry '
+    'rank 0..100, rank_adjustment, max_utilization; assignments go through assignment.update/delete',
     'treadmill.schema needs decorator.getargspec (decorator<5); the harness aliases it to '
     'inspect.getfullargspec because the sandbox has decorator 5',
 ]
@@ -64,6 +68,28 @@ def _mc_one(ctx, job):
 GEN_SOURCES = [('star3', 0), ('three1', 0), ('three1', 1), ('full2', 0)]
 
 
+# ---- beyond C19: reservations -> /allocations (CellSync.tla) -------------
+def _cellsync_jobs(ctx):
+    return [('ext cellsync slim<=4', 4, True)] if ctx.quick else \
+        [('ext cellsync slim<=6', 6, True), ('ext cellsync full<=4', 4, False)]
+
+
+def _cellsync_mc(ctx, job):
+    _name, steps, slim = job
+    mod, cfg, files = rc.mc_cellsync_files(steps, tag='_%d%s' % (steps, 's' if slim else 'f'),
+                                           invariants=rc.CELLSYNC_INVARIANTS, slim=slim)
+    return tlc.mc(rc.SPEC_DIR, mod, cfg, extra_files=files, coverage=False,
+                  workers=2 if ctx.quick else 6, heap='4g', timeout=150 if ctx.quick else 780)
+
+
+def _cellsync_sim(ctx):
+    depth = 9 if ctx.quick else 12
+    mod, cfg, files = rc.mc_cellsync_files(depth, tag='_gen')
+    return tlc.simulate(rc.SPEC_DIR, mod, cfg, num=40 if ctx.quick else 1200, depth=depth + 1,
+                        seed=ctx.seed * 31 + 97, procs=1 if ctx.quick else 3,
+                        extra_files=files, timeout=120 if ctx.quick else 900)
+
+
 def _sim_one(ctx, k, scn, ti):
     n_tlc = 40 if ctx.quick else 1200
     depth = 7 if ctx.quick else 9
@@ -77,12 +103,34 @@ def _model_side(ctx):
     """Step 1+2+3a, concurrently: model checking (repaired model must hold, each
     defect model must fail) and TLC -simulate.  Returns history items."""
     jobs = _mc_jobs(ctx)
-    with concurrent.futures.ThreadPoolExecutor(len(jobs) + len(GEN_SOURCES)) as ex:
+    xjobs = _cellsync_jobs(ctx)
+    with concurrent.futures.ThreadPoolExecutor(len(jobs) + len(GEN_SOURCES) + len(xjobs) + 1) as ex:
         mc_f = [ex.submit(_mc_one, ctx, j) for j in jobs]
         sim_f = [ex.submit(_sim_one, ctx, k, scn, ti) for k, (scn, ti) in enumerate(GEN_SOURCES)]
+        xmc_f = [ex.submit(_cellsync_mc, ctx, j) for j in xjobs]
+        xsim_f = ex.submit(_cellsync_sim, ctx)
         mc_res = [f.result() for f in mc_f]
         sim_res = [f.result() for f in sim_f]
+        xmc_res = [f.result() for f in xmc_f]
+        xsim, xcmd = xsim_f.result()
     items = []
+    ctx.ext_model_runs = []
+    for (name, _steps, _slim), res in zip(xjobs, xmc_res):
+        ctx.cmds.append(res['cmd'])
+        ctx.log('MC %s: %d generated, %d distinct, depth %d, %.1fs%s%s' % (
+            name, res['generated'], res['distinct'], res['depth'], res['wall_s'],
+            ' (TIMEOUT: partial)' if res['timed_out'] else '',
+            ' VIOLATED %s' % res['violated'] if res['violated'] else ''))
+        ctx.ext_model_runs.append(dict(name=name, generated=res['generated'], distinct=res['distinct'],
+                                       complete=res['ok'], violated=res['violated'],
+                                       invariants=rc.CELLSYNC_INVARIANTS))
+        if res['violated']:
+            # the extension's own model is inconsistent: machinery, not the code
+            raise tlc.MachineryError('CellSync.tla violates its own invariant %s\n%s'
+                                     % (res['violated'], res['out'][-1500:]))
+    ctx.cmds.append(xcmd)
+    for b in xsim:
+        items.append(('tlc:cellsync', 'tlc-cellsync', rc.CELLSYNC['table'], rc.from_labels(b)))
     for (name, scn, defects, invs), res in zip(jobs, mc_res):
         ctx.add_mc(name, res, need_actions=('Create', 'Update', 'Delete') if res['coverage'] else ())
         labels = [(a, tlc.tlaval.split_args(b)) for a, b in res['cex'] if a not in ('Initial', 'Next')]
@@ -103,8 +151,11 @@ def _model_side(ctx):
             ctx.log('MC %s timed out: partial' % name)
     for (scn, ti), (behaviours, cmd) in zip(GEN_SOURCES, sim_res):
         ctx.cmds.append(cmd)
+        wrng = random.Random(ctx.seed * 104729 + 7)
         for b in behaviours:
-            items.append(('tlc:%s' % scn, 'tlc', rc.SCENARIOS[scn]['tables'][ti], rc.from_labels(b)))
+            # reservation requests as TLC generated them, interleaved with cellsync runs
+            items.append(('tlc:%s' % scn, 'tlc', rc.SCENARIOS[scn]['tables'][ti],
+                          rc.weave_sync(wrng, rc.from_labels(b))))
     return items
 
 
@@ -114,10 +165,10 @@ def _random_side(ctx):
     rng = random.Random(ctx.seed * 7919 + 19)
     for _ in range(n_rnd):
         table, hist = rc.gen_random(rng, rng.choice([5, 8, 12]))
-        items.append(('rnd', 'rnd', table, hist))
+        items.append(('rnd', 'rnd', table, rc.weave_sync(rng, hist)))
     for _ in range(n_rnd // 2):
         table, hist = rc.gen_traits(rng, rng.choice([4, 6, 8]))
-        items.append(('rnd', 'rnd-traits', table, hist))
+        items.append(('rnd', 'rnd-traits', table, rc.weave_sync(rng, hist)))
     return items
 
 
@@ -138,15 +189,20 @@ def _validate_and_judge(ctx, traces, full_run=False):
     if full_run:
         # vacuity control on the generated batch as a whole
         seen = collections.Counter(f for v in verdicts for f in v['ex'])
-        for flag in ('C19', 'trait', 'replace', 'accept', 'reject'):
+        for flag in ('C19', 'trait', 'replace', 'accept', 'reject',
+                     'ext.sync', 'ext.sync.noop', 'ext.sync.updates', 'ext.sync.removes', 'ext.assign'):
             if not seen[flag]:
                 raise tlc.MachineryError('vacuity: no generated request exercised %r' % flag)
     return judge(ctx, traces, verdicts)
 
 
 def _show(ev, ident, r):
+    if ev == 'Sync':
+        return 'Sync(%s)' % ident[1]
     if r is None:
         return '%s(%s/%s)' % (ev, ident[0], ident[1])
+    if 'pattern' in r:
+        return '%s(%s/%s %s priority=%s)' % (ev, ident[0], ident[1], r['pattern'], r.get('priority'))
     from ..reserve_driver import spell
     return '%s(%s/%s part=%s traits=%s cpu=%s memory=%s disk=%s)' % (
         ev, ident[0], ident[1], r['part'], ','.join(r['traits']) if r['tg'] else '<none given>',
@@ -160,14 +216,23 @@ def judge(ctx, traces, verdicts):
     evaluations = 0
     outcomes = collections.Counter()
     flags = collections.Counter()
+    ext_steps, ext_failed = collections.Counter(), collections.Counter()
     for v in verdicts:
         t = by_tid[v['tid']]
         line = t['lines'][v['i']]
         fails = set(v['fail'])
-        evaluations += 1
-        outcomes[line['out'] if line['ev'] != 'Delete' else 'delete'] += 1
         for f in v['ex']:
             flags[f] += 1
+        ext_steps[line['ev']] += 1
+        for f in fails:
+            if f.startswith('ext.'):
+                ext_failed[f] += 1
+        if line['ev'] in ('Sync', 'Assign', 'Unassign'):
+            if fails - {f for f in fails if f.startswith('ext.')}:
+                ctx.drift += 1
+            continue            # not a reservation request: no C19 clause applies
+        evaluations += 1
+        outcomes[line['out'] if line['ev'] != 'Delete' else 'delete'] += 1
         if any(f.startswith('drift.') for f in fails):
             ctx.drift += 1
         key = core.hist_hash([t['parts'], t['history']])
@@ -197,13 +262,31 @@ def judge(ctx, traces, verdicts):
     if ctx.drift:
         print('DRIFT: %d recorded steps are not what ReserveCore computes '
               '(spec needs updating; not a violation)' % ctx.drift)
+    if ext_failed:
+        print('DRIFT: behaviour modelled beyond the listed property (CellSyncCore.tla: reservations '
+              '-> /allocations) is not what the model computes on %d clause evaluations %s '
+              '(spec needs updating; not a violation)' % (sum(ext_failed.values()), dict(ext_failed)))
+    extensions = dict(cellsync=dict(
+        what='cellsync.sync_allocations (-> masterapi.update_allocations -> /allocations + '
+             "'allocations' event) and assignment.update/delete as actions Sync / Assign / Unassign of "
+             'CellSync.tla, interleaved with the reservation histories on the same in-memory '
+             'directory and one harness/zkfake per cell; clauses ext.dir.meta, ext.cellsync.doc, '
+             '.unique, .event, .frame, .capacity (conformance class: DRIFT, exit 0)',
+        clauses=['ext.dir.meta', 'ext.cellsync.doc', 'ext.cellsync.unique', 'ext.cellsync.event',
+                 'ext.cellsync.frame', 'ext.cellsync.capacity'],
+        model_runs=getattr(ctx, 'ext_model_runs', []),
+        steps_judged=sum(ext_steps.values()), syncs=ext_steps['Sync'],
+        assignments=ext_steps['Assign'] + ext_steps['Unassign'],
+        syncs_noop=flags['ext.sync.noop'], syncs_changing_a_document=flags['ext.sync.updates'],
+        syncs_removing_an_entry=flags['ext.sync.removes'],
+        failed=dict(ext_failed)))
     return core.conclude(
         ctx, level='model_checking', violations=violations, evaluations=evaluations,
         distinct_nontrivial=len(nontrivial), rule=RULE, samples=samples,
         traces_validated=len(traces), assumptions=ASSUMPTIONS,
         extra=dict(trace_sources=dict(collections.Counter(t['src'] for t in traces)),
                    trait_sharing=len(sharing), outcomes=dict(outcomes),
-                   exercised=dict(flags)))
+                   exercised=dict(flags), extensions=extensions))
 
 
 def replay(ctx, path):
@@ -257,6 +340,47 @@ def selftest(ctx):
         ctx.log('corruption %-24s line %d -> %s' % (t['tid'], line, sorted(got)))
         if expect not in got:
             problems.append('corruption %r: expected %s, got %s' % (t['tid'], expect, sorted(got)))
+    # beyond C19: the ext.* clauses bind as well (reported as DRIFT, so only
+    # trace corruption can show it here)
+    xhist = [('Create', a1, dict(req(100, ['gpu']), rank=50)), ('Sync', ('', 'c1'), None),
+             ('Assign', a1, dict(pattern='proid.a*', priority=5)), ('Sync', ('', 'c1'), None),
+             ('Sync', ('', 'c1'), None)]
+    xbase = rc.record([('selftest-ext', 'selftest', rc.T_LIMITS, xhist)])[0]
+
+    def xcorrupt(name, line, expect, fn):
+        t = copy.deepcopy(xbase)
+        t['tid'] = name
+        fn(t['lines'][line]['post'])
+        return t, line, expect
+    xcases = [
+        (xbase, None, None),
+        xcorrupt('document spells 100% as 1%', 2, 'ext.cellsync.doc',
+                 lambda p: p['docs'][0]['entries'][0].update(cpu=[1, '%'])),
+        xcorrupt('document loses the assignment', 4, 'ext.cellsync.doc',
+                 lambda p: p['docs'][0]['entries'][0].update(asg=[])),
+        xcorrupt('entry listed twice', 2, 'ext.cellsync.unique',
+                 lambda p: p['docs'][0]['entries'].append(dict(p['docs'][0]['entries'][0]))),
+        xcorrupt('second sync queues an event', 5, 'ext.cellsync.event',
+                 lambda p: p['events'][0].update(n=p['events'][0]['n'] + 1)),
+        xcorrupt('assignment call rewrites the document', 3, 'ext.cellsync.frame',
+                 lambda p: p['docs'][0]['entries'][0].update(rank=100)),
+        xcorrupt('stored rank 50 becomes 100', 1, 'ext.dir.meta',
+                 lambda p: p['res'][0].update(rank=100)),
+        xcorrupt('document promises 300% of a 200% limit', 2, 'ext.cellsync.capacity',
+                 lambda p: p['docs'][0]['entries'][0].update(cpu=[300, '%'])),
+    ]
+    verdicts, _ = rc.validate([c[0] for c in xcases])
+    xby = collections.defaultdict(dict)
+    for v in verdicts:
+        xby[v['tid']][v['i']] = set(v['fail'])
+    if any(xby[xbase['tid']].values()):
+        problems.append('uncorrupted extension trace has failures %r' % dict(xby[xbase['tid']]))
+    for t, line, expect in xcases[1:]:
+        got = xby[t['tid']].get(line, set())
+        ctx.log('corruption %-40s line %d -> %s' % (t['tid'], line, sorted(got)))
+        if expect not in got or any(f.startswith('C19.') for f in got):
+            problems.append('corruption %r: expected %s and no C19 clause, got %s'
+                            % (t['tid'], expect, sorted(got)))
     problems += selftest_util.run_mutants(ctx, PROP)
     for p in problems:
         print('SELFTEST-FAILURE %s: %s' % (PROP, p))
